@@ -236,3 +236,11 @@ Proof.
     - destruct (next p a); [apply IH; exact H|discriminate]. }
   apply G.
 Qed.
+
+(* a zero-length datagram delivers nothing and changes nothing *)
+Theorem empty_datagram_harmless sz a i b :
+  1 <= sz -> dgram_lines sz (a ++ (i, []) :: b) = dgram_lines sz (a ++ b).
+Proof.
+  intros Hsz. unfold dgram_lines. rewrite !deliver_frame by exact Hsz.
+  rewrite !map_app, !concat_app. cbn [map snd concat app]. reflexivity.
+Qed.
